@@ -61,7 +61,7 @@ def reviewed : List ((String × String × String × Nat) × String) := [
   (("core/src/units.rs", "get_completions_for_prefix", "split_at", 1), "index from rfind of an ASCII char / len_utf8"),
   (("core/src/units.rs", "query_unit", "split_at", 2), "split_at_checked-style loop over char boundaries"),
   (("core/src/units.rs", "query_unit_case_sensitive", "split_at", 1), "index from char_indices"),
-  (("core/src/units.rs", "query_unit_case_sensitive", "unwrap", 2), "first char of a non-empty identifier / of a non-empty remainder (loop guard)"),
+  (("core/src/units.rs", "query_unit_case_sensitive", "unwrap", 1), "first char of a non-empty remainder (loop guard `split_idx < ident.len()`); the second unwrap this entry used to cover — first char of the identifier — WAS reachable with an empty identifier from a saved image (defect D28, repaired: the review reason had been wrong)"),
   (("core/src/units/builtin.rs", "query_unit", "unwrap", 1), "exactly one candidate was just counted")
 ]
 
